@@ -41,7 +41,12 @@ def opts(tier):
 
 
 def generate(rng, tier):
-    if rng.random() < 0.3:
+    if rng.random() < 0.02:
+        # the pair a writer session without any write_segment call leaves behind (files created, nothing logged yet): an empty
+        # data file and an empty index file
+        src = {'kind': 'empty'}
+        cut = None
+    elif rng.random() < 0.3:
         src = {'kind': 'writer', 'program': wgen.gen_program(rng)}
         cut = None
     else:
@@ -156,7 +161,12 @@ def execute(case):
         res.probe('realpath')
     with store(record=False) as st, lib.knobs(debug_log=case.get('debug_log', False)):
         # ---- materialise data + index
-        if src['kind'] == 'stub':
+        if src['kind'] == 'empty':
+            data, index = b'', b''
+            res.sig = ['empty-pair', backend]
+            res.probe('empty-file-pair')
+            res.nontrivial = True
+        elif src['kind'] == 'stub':
             w = build(src['spec'])
             data, index = w.data, w.index
             from .c04 import _sig
@@ -275,6 +285,8 @@ def execute(case):
                 import pathlib
                 ipath = pathlib.Path(ipath)
             for kind in ('path', 'stream'):
+                if kind == 'stream' and src['kind'] == 'empty':
+                    continue        # an empty stream has no tag by which it could be told to be an index file: not judged
                 for mode in ('read', 'open', 'read_metadata'):
                     src_ = ipath if kind == 'path' else st.fs.stream('only.tdms_index')
                     res.probe('index-only-' + kind)
@@ -335,7 +347,7 @@ def shrink_candidates(case):
                 c = dict(case)
                 c['source'] = {'kind': 'stub', 'spec': sp}
                 yield c
-    else:
+    elif case['source']['kind'] == 'writer':
         from .c08 import shrink_candidates as sc
         for c2 in sc({'program': case['source']['program'], 'sink': 'simpath', 'index': True}):
             c = dict(case)
@@ -346,5 +358,7 @@ def shrink_candidates(case):
 def sample(case):
     s = case['source']
     from .c04 import _sig
+    if s['kind'] == 'empty':
+        return {'source': 'empty', 'backend': case['backend']}
     return {'source': s['kind'], 'shape': _sig(s['spec']) if s['kind'] == 'stub' else prog_sig(s['program']),
             'backend': case['backend'], 'cut': case['cut']}
